@@ -758,7 +758,9 @@ func mayBeInvoked(f *ssa.Function) bool {
 			continue
 		}
 		for i := 0; i < it.NumMethods(); i++ {
-			if it.Method(i).Name() == f.Name() {
+			// same name AND same signature (types.Identical ignores receivers): a new method that merely
+			// shares its name with a method of an in-package interface cannot be invoked through it
+			if m := it.Method(i); m.Name() == f.Name() && types.Identical(m.Type(), f.Signature) {
 				return true
 			}
 		}
